@@ -2,13 +2,13 @@
    Property theorems only; each is closed by [exact] of a lemma proved under Proofs/Hier*.v.
 
    A hierarchical wire is  wire :: cable :: instance path  (item first, top instance last).
-   conn s (Hier/Conn.v) = the least equivalence containing (hwire, hwire') whenever an instance pin
-   on hwire (outer side, in the parent) is the port pin attached to hwire' one level down.
+   conn s t (Hier/Conn.v) = the least equivalence containing (hwire, hwire') for wire occurrences of
+   the design below the top instance t, whenever an instance pin on hwire (outer side, in the
+   parent) is the port pin attached to hwire' one level down.
    Hypotheses: Inv1a (C01 containment), Inv2a (C02 reference sets), WFk (well-kinded, allocated),
    WFc (pins and wires point at each other; a wire touches only port pins of its own definition and
-   pins of that definition's children), acyclic, the top instance is a proper root and is not itself
-   a child. All of them are evaluated (booleans inv1a_b, inv2a_b, wfk_b, wfc_b, acyclic_b,
-   top_standalone_b) on every netlist of the correspondence run. *)
+   pins of that definition's children), acyclic, the top instance is a proper root (it may also be
+   a child of a definition outside the design). All of them are evaluated (booleans inv1a_b, inv2a_b, wfk_b, wfc_b, acyclic_b) on every netlist of the correspondence run. *)
 From Coq Require Import List Arith Bool.
 From SV Require Import Base.Base IR.State Proofs.Inv1a Proofs.Inv2a Hier.Paths Hier.Enum Hier.Trace Hier.Conn
   Proofs.HierClosure Proofs.HierTrace Proofs.HierNarrow Proofs.HierTraceEx.
@@ -32,17 +32,17 @@ Print Assumptions C12_worklist_closure_correct.
         closure by the model, computed from the universe of hierarchical wires of C11
         (all_hwires, complete and duplicate-free), is sufficient. ---- *)
 Theorem C12_all : forall s t,
-  Inv1a s -> Inv2a s -> WFk s -> WFc s -> par s RChildren t = None -> is_root s t ->
+  Inv1a s -> Inv2a s -> WFk s -> WFc s -> is_root s t ->
   forall n U x, acyclic s -> top s n = Some t -> all_hwires s n = Some U -> hwire_occ s t x ->
-  exists l, get_hwires_ALL s (pin_weight s U) x = Some l /\ (forall b, In b l <-> Conn.conn s x b).
+  exists l, get_hwires_ALL s (pin_weight s U) x = Some l /\ (forall b, In b l <-> Conn.conn s t x b).
 Proof. exact get_hwires_ALL_class. Qed.
 Print Assumptions C12_all.
 
 (* every member of a net yields the same answer *)
 Theorem C12_symmetric : forall s t,
-  Inv1a s -> Inv2a s -> WFk s -> WFc s -> par s RChildren t = None -> is_root s t ->
+  Inv1a s -> Inv2a s -> WFk s -> WFc s -> is_root s t ->
   forall n U x y, acyclic s -> top s n = Some t -> all_hwires s n = Some U ->
-  hwire_occ s t x -> Conn.conn s x y ->
+  hwire_occ s t x -> Conn.conn s t x y ->
   exists lx ly, get_hwires_ALL s (pin_weight s U) x = Some lx /\
                 get_hwires_ALL s (pin_weight s U) y = Some ly /\ (forall b, In b lx <-> In b ly).
 Proof. exact get_hwires_ALL_symmetric. Qed.
@@ -50,17 +50,17 @@ Print Assumptions C12_symmetric.
 
 (* selection ALL from a hierarchical pin = the class(es) of the wire(s) attached to it *)
 Theorem C12_all_from_pin : forall s t,
-  Inv1a s -> Inv2a s -> WFk s -> WFc s -> par s RChildren t = None -> is_root s t ->
+  Inv1a s -> Inv2a s -> WFk s -> WFc s -> is_root s t ->
   forall n U a, acyclic s -> top s n = Some t -> all_hwires s n = Some U -> hpin_occ s t a ->
   exists l, get_hwires s SAll false (pin_weight s U) a = Some l /\
-            (forall b, In b l <-> exists x, In x (nb_sel s SAll a) /\ Conn.conn s x b).
+            (forall b, In b l <-> exists x, In x (nb_sel s SAll a) /\ Conn.conn s t x b).
 Proof. exact get_hwires_ALL_pin. Qed.
 Print Assumptions C12_all_from_pin.
 
 (* the relation walked by the code (pins of a wire, wires of a pin) is conn on occurrences *)
 Theorem C12_code_relation_is_conn : forall s t,
-  Inv1a s -> WFc s -> par s RChildren t = None ->
-  forall x y, hwire_occ s t x -> (code_conn s x y <-> Conn.conn s x y).
+  Inv1a s -> WFc s ->
+  forall x y, hwire_occ s t x -> (code_conn s x y <-> Conn.conn s t x y).
 Proof. exact code_conn_iff_conn. Qed.
 Print Assumptions C12_code_relation_is_conn.
 
@@ -74,12 +74,26 @@ Proof. exact get_hwires_INSIDE_pin. Qed.
 Print Assumptions C12_inside.
 
 Theorem C12_outside : forall s t, Inv1a s -> Inv2a s -> WFk s -> is_root s t ->
-  forall usum i q x p, hpin_occ s t (i :: q :: x :: p) ->
-  exists l, get_hwires s SOutside false usum (i :: q :: x :: p) = Some l /\
+  forall usum i q x x' p', hpin_occ s t (i :: q :: x :: x' :: p') ->
+  exists l, get_hwires s SOutside false usum (i :: q :: x :: x' :: p') = Some l /\
             (forall b, In b l <-> exists w c, assoc i (ipins s x) = Some (Some w) /\
-                                             par s RWires w = Some c /\ b = w :: c :: p).
+                                             par s RWires w = Some c /\ b = w :: c :: x' :: p').
 Proof. exact get_hwires_OUTSIDE_pin. Qed.
 Print Assumptions C12_outside.
+
+(* a pin of the top instance has nothing outside, even if the top instance is a wired child of a
+   definition that is not part of the design *)
+Theorem C12_outside_top : forall s t, Inv1a s -> Inv2a s -> WFk s -> is_root s t ->
+  forall usum i q, hpin_occ s t [i; q; t] -> get_hwires s SOutside false usum [i; q; t] = Some [].
+Proof. exact get_hwires_OUTSIDE_top_pin. Qed.
+Print Assumptions C12_outside_top.
+
+(* when the top instance is not itself a child, every crossing that touches the design lies in it *)
+Theorem C12_conn_unrestricted_when_top_standalone : forall s t, Inv1a s -> WFc s ->
+  forall b b', par s RChildren t = None -> hlink s b b' -> (hwire_occ s t b \/ hwire_occ s t b') ->
+  hlink_occ s t b b'.
+Proof. exact hlink_occ_standalone. Qed.
+Print Assumptions C12_conn_unrestricted_when_top_standalone.
 
 (* ---- pins of a hierarchical wire: exactly the pin occurrences (port pins at the same level,
         pins of sub-instances one level down) whose inside or outside wire it is ---- *)
@@ -95,27 +109,27 @@ Print Assumptions C12_pins_of_wire.
 Example C12_hypotheses_satisfiable_example :
   exists s t n U x y,
     Inv1a s /\ Inv2a s /\ WFk s /\ WFc s /\ acyclic s /\ par s RChildren t = None /\ is_root s t /\
-    top s n = Some t /\ all_hwires s n = Some U /\ hwire_occ s t x /\ Conn.conn s x y /\ x <> y.
+    top s n = Some t /\ all_hwires s n = Some U /\ hwire_occ s t x /\ Conn.conn s t x y /\ x <> y.
 Proof. exact C12_hypotheses_satisfiable. Qed.
 
 (* ---- full statement: also for port and cable starts (unions over their pins / wires) and for
         get_hcables; these two are covered by the correspondence run and the union-find oracle,
         not by a Coq proof ---- *)
 Definition C12_full : Prop := forall s t,
-  Inv1a s -> Inv2a s -> WFk s -> WFc s -> par s RChildren t = None -> is_root s t ->
+  Inv1a s -> Inv2a s -> WFk s -> WFc s -> is_root s t ->
   forall n U, acyclic s -> top s n = Some t -> all_hwires s n = Some U ->
   (forall x, hwire_occ s t x ->
-     exists l, get_hwires_ALL s (pin_weight s U) x = Some l /\ (forall b, In b l <-> Conn.conn s x b))
+     exists l, get_hwires_ALL s (pin_weight s U) x = Some l /\ (forall b, In b l <-> Conn.conn s t x b))
   /\ (forall a, hpin_occ s t a ->
      exists l, get_hwires s SAll false (pin_weight s U) a = Some l /\
-               (forall b, In b l <-> exists x, In x (nb_sel s SAll a) /\ Conn.conn s x b))
+               (forall b, In b l <-> exists x, In x (nb_sel s SAll a) /\ Conn.conn s t x b))
   /\ (forall q x p, is_rpath s t (x :: p) -> In q (ports_of s x) ->
      exists l, get_hwires s SAll false (pin_weight s U) (q :: x :: p) = Some l /\
                (forall b, In b l <-> exists i y, In i (kids s RPins q) /\
-                                                 In y (nb_sel s SAll (i :: q :: x :: p)) /\ Conn.conn s y b))
+                                                 In y (nb_sel s SAll (i :: q :: x :: p)) /\ Conn.conn s t y b))
   /\ (forall c x p, is_rpath s t (x :: p) -> In c (cables_of s x) ->
      exists l, get_hwires s SAll false (pin_weight s U) (c :: x :: p) = Some l /\
-               (forall b, In b l <-> exists w, In w (kids s RWires c) /\ Conn.conn s (w :: c :: x :: p) b))
+               (forall b, In b l <-> exists w, In w (kids s RWires c) /\ Conn.conn s t (w :: c :: x :: p) b))
   /\ (forall x, hwire_occ s t x ->
      exists l, get_hcables s SAll false (pin_weight s U) x = Some l /\
-               (forall k, In k l <-> exists b, Conn.conn s x b /\ k = tl b)).
+               (forall k, In k l <-> exists b, Conn.conn s t x b /\ k = tl b)).
